@@ -40,7 +40,7 @@ def plan(tier, seed):
 
 def floors(tier):
     strata = ["single-datum", "same-time", "options-omitted", "options-empty", "options-partial", "span:1ms", "span:8ms", "span:50ms", "span:second", "span:minute",
-              "span:hour", "span:day", "span:week", "span:month", "span:year", "span:300y", "month-end-window", "leap-day-window", "year-end-window", "linear-single", "explicit-width-forms",
+              "span:hour", "span:day", "span:week", "span:month", "span:year", "span:300y", "month-end-window", "leap-day-window", "year-end-window", "linear-single", "explicit-width-forms", "bounds-forms",
               "big", "general"]
     return {"evaluations": 500, "strata": strata, "events": {"Timeline.__init__": 500, "TimelineSVG.export": 200, "TimelineTex.export": 200},
             "distinct_nontrivial": 100, "max_inconclusive_frac": 0.02}
@@ -114,6 +114,12 @@ def strata_specs(rng):
     for d in TL.DIRECTIONS:
         data = [{"time": t0 + dt.timedelta(minutes=i), "width": [60, 0, 55, 0.0, 70, 65][i], "uid": i} for i in range(6)]
         out.append(("explicit-width-forms", {"data": data, "options": dict(base_opts(d), labella={"maxPos": 200, "density": 0.5}, labelPadding={"left": 0, "right": 0, "top": 1, "bottom": 1})}))
+    # forms of the bounds: a band of zero width, coinciding or crossed bounds, a bound at the origin, no lower bound
+    for lab in ({"maxPos": 0}, {"minPos": 50, "maxPos": 50}, {"minPos": 100, "maxPos": 50}, {"minPos": None, "maxPos": 0}, {"minPos": None, "maxPos": -10},
+                {"minPos": -300, "maxPos": 0}, {"minPos": 0.0, "maxPos": 0.0, "algorithm": "simple"}, {"maxPos": 0, "algorithm": "none"}, {"minPos": None}):
+        for d in ("up", "left"):
+            data = [{"time": t0 + dt.timedelta(minutes=7 * i), "width": 30 + i, "uid": i, "text": "L%d" % i} for i in range(5)]
+            out.append(("bounds-forms", {"data": data, "options": dict(base_opts(d), labella=dict(lab))}))
     data3 = [{"time": dt.date(2020, 1, 1 + 9 * i), "width": 30 + i, "uid": i, "text": "L%d" % i} for i in range(3)]
     out.append(("options-omitted", {"data": data3, "options": None}))
     out.append(("options-omitted", {"data": [{"time": dt.datetime(2020, 5, 1 + i, 12), "width": 50, "uid": i} for i in range(5)], "options": None}))
